@@ -540,7 +540,9 @@ theorem rd_idle {s : St} (h : SInv s) : s.rejoinD = false → s.jpc = .idle := f
 
 theorem stop_sinv {s : St} (h : SInv s) (hp : Live s) (cfg : Cfg) : SInv (step cfg s .stop).1 := by
   simp only [step]
-  exact sinv_after_call (stopCall_res h.toWInv cfg none true (rd_idle h) h.hb_has) h hp
+  rcases userStop_cases cfg s with ⟨hu, _, _⟩ | hu <;> rw [hu]
+  · exact h
+  · exact sinv_after_call (stopCall_res h.toWInv cfg none true (rd_idle h) h.hb_has) h hp
 
 /-- bookkeeping fields `stops` / `prep` do not matter to `SInv` of a live state -/
 theorem sinv_stops_prep {s : St} (h : SInv s) (hp : Live s) (st : List StopCo) (p : Drain) : SInv { s with stops := st, prep := p } := by
@@ -790,7 +792,9 @@ theorem pristine_step {s : St} (h : SInv s) (h1 : s.started = false) (h2 : s.sto
   | start => exact absurd rfl he
   | advance dt => exact absurd rfl (ha dt)
   | stop =>
-    simp [step, stopCall, stopLoop, heldCids, c, coordStop, h1]
+    rcases userStop_cases cfg s with ⟨hu, _, _⟩ | hu
+    · simp [step, hu]
+    · simp [step, hu, stopCall, stopLoop, heldCids, c, coordStop, h1]
   | coordDone r => simp [step, j]
   | metaDone r => simp [step, j]
   | joinDone r => simp [step, j]
